@@ -93,6 +93,30 @@ func runC14(seed int64, n int, tier string) *Result {
 		} else {
 			c = g.Perturb(b, depth)
 		}
+		switch g.R.Intn(8) {
+		case 0: // three errors, often related by wrapping
+			pick := func() types.Value { return types.NewError(g.Errors[g.R.Intn(len(g.Errors))]) }
+			a, b, c = pick(), pick(), pick()
+			if g.R.Intn(2) == 0 {
+				b = g.Perturb(a, 0)
+			}
+		case 1: // tiny maps over one collision class, nil and non-nil values, both mutabilities
+			pick := func() types.Value {
+				m := types.NewMapWithSize(0)
+				for i := g.R.Intn(3); i >= 0; i-- {
+					var v types.Value
+					if g.R.Intn(2) == 0 {
+						v = types.NewInt(g.R.Intn(2))
+					}
+					m.Set(g.CollidingKey(), v)
+				}
+				if g.R.Intn(2) == 0 {
+					return m
+				}
+				return m.Immutable()
+			}
+			a, b, c = pick(), pick(), pick()
+		}
 		fail := laws14(a, b, c)
 		for _, p := range [][2]types.Value{{a, b}, {b, c}, {a, c}} {
 			x, y := p[0], p[1]
